@@ -133,7 +133,9 @@ def registry():
     def add(name, fn, *arg_builders):
         reg.append((name, fn, arg_builders))
 
-    texts_int = [lambda: (E(['1', '23', '456']),), lambda: (E(['-1', '+23', '007']),), lambda: (E(['0']),), lambda: (E(['-9223372036854775808', '5']),)]
+    texts_int = [lambda: (E(['1', '23', '456']),), lambda: (E(['-1', '+23', '007']),), lambda: (E(['0']),), lambda: (E(['-9223372036854775808', '5']),),
+                 # every sign pattern on its own: plus only, minus only (each takes a different branch)
+                 lambda: (E(['+5', '12', '+300']),), lambda: (E(['-5', '12', '-300']),), lambda: (E(['+7']),)]
     add('strops.str_to_int', strops.str_to_int, *texts_int)
     texts_float = [lambda: (E(['0.5', '-2.25', '10']),), lambda: (E(['1e3', '2.5e-3', '-1e-10']),), lambda: (E(['.5', '5.', '-0.0']),)]
     add('strops.str_to_float', strops.str_to_float, *texts_float)
